@@ -15,6 +15,8 @@ func f64Ptr(f float64) *float64 { return &f }
 func boolPtr(b bool) *bool      { return &b }
 
 type richOpts struct {
+	caseIDs   bool // style identifiers that differ only by case
+	unordered bool // cues not in start order
 	safe      bool // every InlineStyle of styles/regions and the metadata are present
 	hostile   bool // text with leading combining marks, control characters, non-BMP runes
 	maxStyles int
@@ -250,6 +252,9 @@ func richSubs(r *rng, o richOpts) *astisub.Subtitles {
 	ns := r.intn(o.maxStyles + 1)
 	for i := 0; i < ns && s.Styles != nil; i++ {
 		st := &astisub.Style{ID: fmt.Sprintf("s%d", i)}
+		if o.caseIDs {
+			st.ID = []string{"Default", "default", "DEFAULT", "Alt", "alt", "aLT", "x"}[i%7]
+		}
 		if o.safe || r.chance(3, 4) {
 			st.InlineStyle = randStyleAttrs(r, 0)
 		}
@@ -328,6 +333,12 @@ func richSubs(r *rng, o richOpts) *astisub.Subtitles {
 			it.Lines = append(it.Lines, ln)
 		}
 		s.Items = append(s.Items, it)
+	}
+	if o.unordered {
+		for i := len(s.Items) - 1; i > 0; i-- {
+			j := r.intn(i + 1)
+			s.Items[i], s.Items[j] = s.Items[j], s.Items[i]
+		}
 	}
 	return s
 }
